@@ -123,6 +123,10 @@ pub fn gen_c01(tier: &str, r: u64, ex: u64, rng: &mut Rng) -> Value {
         pre.truncate(rng.range(1, 3) as usize);
         for p in pre.iter_mut() {
             set_flav(p, f);
+            if rng.chance(1, 3) {
+                // the destination exists already and is longer than the value
+                steps.push(json!({"k":"env","act":"write_file","path":p["to"].clone(),"hex":"ee".repeat((len as usize + 10).min(5000))}));
+            }
         }
         steps.extend(pre.clone());
         // the repetition runs in the same process half of the time (state kept inside one process matters then)
@@ -166,6 +170,14 @@ pub fn gen_c01(tier: &str, r: u64, ex: u64, rng: &mut Rng) -> Value {
         let keep = rng.range(3, ops.len() as u64) as usize;
         ops.truncate(keep);
         steps.extend(ops);
+    }
+    // an undamaged sibling copied over an existing, longer file: exactly the stored bytes afterwards
+    if rng.chance(1, 3) {
+        let l1 = vlen(&vals, 1);
+        steps.push(json!({"k":"env","act":"write_file","path":"$O/longer","hex":"dd".repeat((l1 as usize + 1 + rng.below(40) as usize).min(6000))}));
+        let mut s = if rng.chance(1, 2) { json!({"k":"api","op":"copy","key":1,"to":"$O/longer"}) } else { json!({"k":"api","op":"copy","addr":c1,"to":"$O/longer"}) };
+        set_flav(&mut s, flav(rng));
+        steps.push(s);
     }
     // siblings untouched by the damage read back exactly (strict)
     if nv > 2 {
